@@ -210,6 +210,9 @@ def handle (fn : String) (a : Json) : R Json := do
     let f : Record → Bool := fun x => ((answers.find? (·.1 == x)).map (·.2)).getD false
     let out := format f r
     pure (obj [("record", recJsonC out), ("valid", ofBool (SchemaOk out)), ("queries", ofNat answers.length)])
+  | "renderStr" =>
+    -- the JSON text of one string value as the formatters write it (escaping per the extracted `ensure_ascii` setting)
+    pure (ofStr (renderStr G.jsonAsciiOnly (← strF a "s")))
   | _ => throw s!"unknown function C34.{fn}"
 
 end VgiVerif.C34.Driver
